@@ -21,6 +21,12 @@ THEOREMS = [f"NauyacaVerif.C16.{t}" for t in
 LEAN_TARGETS = LEAN_TARGETS + ["NauyacaVerif.Props.Tr.FollowRedirects"]
 TRANSLATED = ["followRedirects"]
 THEOREMS = THEOREMS + [f"NauyacaVerif.Translated.{t}" for t in ("followRedirects_eq", "tr_bound", "tr_scheme", "tr_no_fake_final", "getTr_fuel")]
+# the predicates and accessors the translation of _get_with_redirects took as given: is_redirect (protocol/status.py),
+# GeminiResponse.is_redirect / .redirect_url (protocol/response.py) - translated too and proved equal to Cl.isRedirectStatus / Resp.redirectUrl
+LEAN_TARGETS = LEAN_TARGETS + ["NauyacaVerif.Props.Tr.StatusClass"]
+TRANSLATED = TRANSLATED + ["isRedirect", "isSuccess", "respIsRedirect", "respRedirectUrl"]
+THEOREMS = THEOREMS + [f"NauyacaVerif.Translated.{t}" for t in ("is_redirect_eq", "is_redirect_iff", "is_success_iff", "status_classes_disjoint", "respOf_wf",
+                                                               "wf_is_respOf", "resp_redirect_url_eq", "resp_redirect_url_iff")]
 EXTRACT = ["maxRedirects"]
 ASSUMPTIONS = [
     "a 'connection' is a call of GeminiClient._get_single (the only place that opens a transport); the pin check of every hop is inside _get_single and is covered by C03/C11",
@@ -133,6 +139,13 @@ class Graph(Family):
             if IRI_POOL.index(t1) < MIXED_N <= IRI_POOL.index(t2) or IRI_POOL.index(t1) + 1 == IRI_POOL.index(t2):
                 wit.append({"max": 1, "start": "gemini://a/", "graph": fwd, "follow": True})
                 wit.append({"max": 4, "start": "gemini://a/", "graph": {"gemini://a/": ["r", 30, t1], t1: ["r", 31, t2], t2: ["r", 30, t1]}, "follow": True})
+        # a FINAL response (any code outside 30..39, the edges 29 and 40 included) whose meta happens to be a gemini URL - an error text
+        # or a MIME line that names one - is final: it is handed back and nothing is requested from the URL in its meta
+        for code in (29, 40, 20, 10, 19, 41, 44, 51, 62, 69):
+            for hops in (0, 1):
+                g = {"gemini://a/": ["r", 30, "gemini://b/"], "gemini://b/": ["f", code, "gemini://c/x"], "gemini://c/x": ["f", 20]}
+                wit.append({"max": 3, "start": "gemini://a/" if hops else "gemini://b/", "graph": g, "follow": True})
+            wit.append({"max": 2, "start": "gemini://b/", "graph": {"gemini://b/": ["f", code, "gemini://b/"]}, "follow": True})
         for c in self.share(wit):
             yield c
             count += 1
@@ -145,6 +158,8 @@ class Graph(Family):
                 r = rng.random()
                 if r < 0.2:
                     g[u] = ["f", rng.choice([20, 10, 40, 51, 59, 60, 29])]
+                    if i % 4 == 1:        # its meta is a URL of the graph (no further random draw: the other cases stay what they were)
+                        g[u].append(urls[(i // 4) % len(urls)])
                 elif r < 0.27:
                     g[u] = ["e"]
                 elif r < 0.85:
@@ -166,7 +181,8 @@ class Graph(Family):
             if e is None or e[0] == "e":
                 raise ConnectionError("stub: no such host")
             if e[0] == "f":
-                return GeminiResponse(status=e[1], meta="text/gemini" if 20 <= e[1] < 30 else "meta", body="x" if 20 <= e[1] < 30 else None, url=url)
+                return GeminiResponse(status=e[1], meta=e[2] if len(e) > 2 else "text/gemini" if 20 <= e[1] < 30 else "meta",
+                                      body="x" if 20 <= e[1] < 30 else None, url=url)
             return GeminiResponse(status=e[1], meta=e[2], url=url)
 
         async def go():
@@ -252,6 +268,9 @@ class Graph(Family):
             u = e[2]
         e = g.get(u)
         if u not in chain and e is not None and e[0] == "f" and not (30 <= e[1] < 40) and len(chain) <= mx:
+            if len(conns) > len(chain) + 1 and same_resource(conns[:len(chain) + 1], chain + [u]):
+                return ("past-final", f"the response {e[1]} {e[2] if len(e) > 2 else ''!r} of {u!r} is final (its code is outside 30..39) but the fetch went on: "
+                                      f"connections {conns}, result {r}")
             if r != ["final", e[1]] or not same_resource(conns, chain + [u]):
                 return ("not-followed", f"loop-free chain of {len(chain)} redirects (max {mx}) not followed to its final response: result {r}, connections {conns}"
                                         + ("" if len(conns) != len(chain) + 1 else
